@@ -271,7 +271,12 @@ fn read_seq(img: &[u8], logical: &[u8], seq: &[usize]) -> Option<String> {
         if o < RSEEK.len() {
             let p = if RSEEK[o] == u64::MAX { img.len() as u64 - 5 } else { RSEEK[o] };
             if p >= img.len() as u64 {
-                continue; // beyond the end: not specified, not judged
+                // beyond the end: whether the seek is refused is not specified - but a refused seek
+                // must not move the cursor: what is read next continues where the reader stood
+                match r.seek_physical(p) {
+                    Err(_) => continue,
+                    Ok(_) => return None, // accepted: what follows is not specified, not judged
+                }
             }
             let l = (p / 1024 * 1020 + p % 1024) as usize;
             match r.seek_physical(p) {
